@@ -73,7 +73,7 @@ Proof. destruct pc; simpl; congruence. Qed.
 Lemma L2_frame : forall st st',
   requests (sh st') = requests (sh st) -> arrivals (sh st') = arrivals (sh st) ->
   starts (sh st') = starts (sh st) -> execs (sh st') = execs (sh st) -> popped (sh st') = popped (sh st) ->
-  closing (sh st') = closing (sh st) -> cwf (sh st') = cwf (sh st) -> will_close (sh st') = will_close (sh st) ->
+  closing (sh st') = closing (sh st) -> cwf (sh st') = cwf (sh st) -> (will_close (sh st) = true -> will_close (sh st') = true) ->
   ia2 (ipc (io st')) = ia2 (ipc (io st)) ->
   (forall j, wa2 (wpc (wk st' j)) = wa2 (wpc (wk st j)) /\ w_cur (wk st' j) = w_cur (wk st j)) ->
   L2 st -> L2 st'.
@@ -88,11 +88,12 @@ Proof.
   assert (I2 : is_rccwf (ipc (io st')) = is_rccwf (ipc (io st))) by (unfold ia2 in Hi; congruence).
   assert (I3 : is_wwc (ipc (io st')) = is_wwc (ipc (io st))) by (unfold ia2 in Hi; congruence).
   unfold live in *.
-  split; unfold live; rewrite ?Hr, ?Ha, ?Hs, ?He, ?Hp, ?Hc, ?Hf, ?Hwc, ?I1, ?I2, ?I3; intros;
+  split; unfold live; rewrite ?Hr, ?Ha, ?Hs, ?He, ?Hp, ?Hc, ?Hf, ?I1, ?I2, ?I3; intros;
     repeat match goal with H : context [wk st' _] |- _ => rewrite ?Hsv, ?Hxd, ?Hcb, ?Hsc, ?Hcu in H end;
     rewrite ?Hsv, ?Hxd, ?Hcb, ?Hsc, ?Hcu; eauto.
   all: try (apply B; auto; intro j; rewrite <- Hsv; auto).
   all: try (destruct (E2 H) as [[j Hj]|X]; auto; left; exists j; rewrite Hsv; auto).
+  all: try (destruct (Ka H) as [X|[X|X]]; auto).
 Qed.
 
 (* list facts *)
